@@ -554,6 +554,10 @@ def run_job(prop, job, run_dir, want_functions=True):
             reach = reachable_functions(goto, job.entry)
             rf = repo_functions()
             info["functions"] = sorted(f for f in reach if f in rf)
+            info["stubs"] = sorted(f for f in reach if re.match(
+                r"vp_(pipe|close|read|write|fcntl|open|fileno|dup2|fork|waitpid|kill|poll|chdir|execvp|_exit|getcwd|"
+                r"getrlimit|sigfillset|sigemptyset|sigaction|sigprocmask|pthread_sigmask|clock_gettime|malloc|calloc|"
+                r"realloc|free|strdup|strerror_r)$", f))
         job.auto_unwindset, loop_table = compute_unwindset(job, goto)
         info["bounds"]["loops"] = loop_table
         cmd = cbmc_cmd(job, goto)
